@@ -830,17 +830,27 @@ func (e *FactEngine) eqAtom(a, b string, paths []string) *Formula {
 func (e *FactEngine) bindCall(fi *FuncInfo, call *ast.CallExpr, sc *scope, paths *[]string) (*scope, bool) {
 	env := map[types.Object]string{}
 	info := fi.Info()
+	args := call.Args
 	if fi.Decl.Recv != nil {
 		sel, ok := ast.Unparen(call.Fun).(*ast.SelectorExpr)
 		if !ok {
 			return nil, false
 		}
+		recvExpr := sel.X
+		// a method expression T.m(recv, args…): the receiver is the first argument
+		if s := sc.info.Selections[sel]; s != nil && s.Kind() == types.MethodExpr {
+			if len(args) == 0 {
+				return nil, false
+			}
+			recvExpr, args = args[0], args[1:]
+		}
 		if len(fi.Decl.Recv.List) == 1 && len(fi.Decl.Recv.List[0].Names) == 1 {
 			ro := info.Defs[fi.Decl.Recv.List[0].Names[0]]
-			s := e.canon(sel.X, sc, nil)
+			s := e.canon(recvExpr, sc, nil)
 			env[ro] = strings.TrimPrefix(s, "&")
 		}
 	}
+	call = &ast.CallExpr{Fun: call.Fun, Args: args, Lparen: call.Lparen, Rparen: call.Rparen}
 	i := 0
 	for _, fld := range fi.Decl.Type.Params.List {
 		for _, nm := range fld.Names {
@@ -864,6 +874,23 @@ func (e *FactEngine) inlinePredicate(call *ast.CallExpr, sc *scope) (*Formula, b
 		return nil, false
 	}
 	fi := e.p.FuncOf(Callee(sc.info, call))
+	if fi == nil && sc.local {
+		// a call through a local that holds one function value (`match := (*IP).Deleting; match(v)`):
+		// the call of that function
+		if id, ok := ast.Unparen(call.Fun).(*ast.Ident); ok {
+			if v, ok := sc.info.ObjectOf(id).(*types.Var); ok && !v.IsField() {
+				if ds := varDefs(e.fn, v); len(ds) == 1 && ds[0].rhs != nil {
+					switch fv := ast.Unparen(ds[0].rhs).(type) {
+					case *ast.Ident, *ast.SelectorExpr:
+						c2 := &ast.CallExpr{Fun: fv, Args: call.Args, Lparen: call.Lparen, Rparen: call.Rparen}
+						if f2 := e.p.FuncOf(Callee(sc.info, c2)); f2 != nil {
+							fi, call = f2, c2
+						}
+					}
+				}
+			}
+		}
+	}
 	if fi == nil {
 		return nil, false
 	}
@@ -1393,12 +1420,35 @@ func (e *FactEngine) newUniverse(req *Formula, body *ast.BlockStmt, target ...as
 		}
 		for round := 0; round < 2; round++ {
 			ast.Inspect(body, func(n ast.Node) bool {
-				is, ok := n.(*ast.IfStmt)
-				if !ok || len(m) >= 14 {
+				if len(m) >= 14 {
+					return true
+				}
+				// an if with its arms, or a tagless switch with its clauses
+				var conds []ast.Expr
+				var blocks []*ast.BlockStmt
+				switch t := n.(type) {
+				case *ast.IfStmt:
+					conds = []ast.Expr{t.Cond}
+					blocks = []*ast.BlockStmt{t.Body}
+					if eb, ok := t.Else.(*ast.BlockStmt); ok {
+						blocks = append(blocks, eb)
+					}
+				case *ast.SwitchStmt:
+					if t.Tag != nil {
+						return true
+					}
+					for _, cc := range t.Body.List {
+						cl := cc.(*ast.CaseClause)
+						conds = append(conds, cl.List...)
+						blocks = append(blocks, &ast.BlockStmt{List: cl.Body})
+					}
+				default:
 					return true
 				}
 				am := map[string]bool{}
-				e.boolForm(is.Cond, sc).atoms(am)
+				for _, cnd := range conds {
+					e.boolForm(cnd, sc).atoms(am)
+				}
 				share := false
 				for a := range am {
 					if m[a] {
@@ -1408,12 +1458,26 @@ func (e *FactEngine) newUniverse(req *Formula, body *ast.BlockStmt, target ...as
 				if !share {
 					return true
 				}
-				blocks := []*ast.BlockStmt{is.Body}
-				if eb, ok := is.Else.(*ast.BlockStmt); ok {
-					blocks = append(blocks, eb)
+				if _, isSwitch := n.(*ast.SwitchStmt); isSwitch && len(m)+len(am) <= 16 {
+					for a := range am {
+						m[a] = true // the clause conditions decide which constant the flag received
+					}
 				}
 				for _, b := range blocks {
-					for _, st := range b.List {
+					// statements of the arm, through plain nested blocks (an expanded helper's `{ x = …; break }`)
+					var flat []ast.Stmt
+					var flatten func(list []ast.Stmt)
+					flatten = func(list []ast.Stmt) {
+						for _, st := range list {
+							if nb, ok := st.(*ast.BlockStmt); ok {
+								flatten(nb.List)
+							} else {
+								flat = append(flat, st)
+							}
+						}
+					}
+					flatten(b.List)
+					for _, st := range flat {
 						as, ok := st.(*ast.AssignStmt)
 						if !ok || len(as.Lhs) != len(as.Rhs) {
 							continue
